@@ -106,13 +106,51 @@ def inverse_circuit(tableau):
     :return: the tableau that is converted to the basis state, list of gate instructions
     :rtype: StabilizerTableau, list[tuple]
     """
+    tableau = canonical_form(tableau)
+    reduced, circuit_list = _inverse_circuit_pass(tableau.copy(), False)
+    n_qubits = reduced.n_qubits
+    if (
+        np.any(reduced.x_matrix)
+        or np.any(reduced.phase)
+        or not np.array_equal(reduced.z_matrix, np.eye(n_qubits))
+    ):
+        # the greedy choice of Hadamard gates can leave an X part that is not unit upper triangular (first possible on
+        # 5 qubits); then the later blocks do not reach the basis state, and the reduction is redone with a Hadamard
+        # block that eliminates as it goes, which always succeeds
+        reduced, circuit_list = _inverse_circuit_pass(tableau, True)
+    return reduced, circuit_list
+
+
+def _inverse_circuit_pass(tableau, eliminate):
+    """
+    One reduction of a tableau in canonical form towards the tableau of :math:`|0\\rangle^{\\otimes n}`.
+
+    :param tableau: the input tableau in canonical form
+    :type tableau: StabilizerTableau
+    :param eliminate: if True, the Hadamard block puts the X part into the identity by row operations as it goes
+    :type eliminate: bool
+    :return: the reduced tableau, list of gate instructions
+    :rtype: StabilizerTableau, list[tuple]
+    """
     circuit_list = []
     pivot = [0, 0]
     n_qubits = tableau.n_qubits
-    tableau = canonical_form(tableau)
 
     # Hadamard block
     for j in range(n_qubits):
+        if eliminate:
+            rows = [i for i in range(j, n_qubits) if tableau.x_matrix[i, j] == 1]
+            if not rows:
+                # the generators j, ..., n-1 have no X on the qubits before j and act as an independent commuting set on
+                # the qubits j, ..., n-1, so one of them has a Z on qubit j
+                circuit_list.append(("H", j))
+                tableau = transform.hadamard_gate(tableau, j)
+                rows = [i for i in range(j, n_qubits) if tableau.x_matrix[i, j] == 1]
+            tableau = tab_row_swap(tableau, j, rows[0])
+            for i in range(n_qubits):
+                if i != j and tableau.x_matrix[i, j] == 1:
+                    tableau = tab_row_sum(tableau, j, i)
+            continue
         pivot[1] = j
         x_list, y_list, z_list = pauli_type_finder(
             tableau.x_matrix, tableau.z_matrix, pivot
